@@ -566,9 +566,16 @@ def deser_outcome(cls, doc, case):
     try:
         inst = Deserializer(cls).deserialize(doc, **flags)
     except Exception as e:   # noqa: BLE001
-        return None, {"err": err_name(e), "msg": str(e)[:200]}
+        from . import construct as C
+        return None, {"err": err_name(e), "errc": C.err_name(e), "msg": str(e)[:200]}
     d = dump_instance(inst)
     out = {"ok": canon(d)}
+    try:
+        from .. import dump
+        from . import construct as C
+        out["inst"] = dump.dump_value(inst, C.make_ctx())
+    except Exception as e:   # noqa: BLE001
+        out["inst_undumpable"] = f"{type(e).__name__}: {e}"
     if isinstance(d, dict) and "$" in d:
         out["version"] = d["$"].get("version")
         out["okNoVersion"] = canon({"$": {k: v for k, v in d["$"].items() if k != "version"}})
@@ -654,6 +661,15 @@ def _run(case, rec):
         return res
     _, res["deser_old"] = deser_outcome(V, doc, case)
     check_snap("deserialize(document)")
+    if not case["trusted"]:
+        try:
+            from .. import dump
+            from . import construct as C
+            ctx = C.make_ctx()
+            res["cls"] = dump.dump_class(V, ctx)
+            res["plainCls"] = dump.dump_class(P, ctx)
+        except Exception as e:   # noqa: BLE001
+            res["cls_undumpable"] = f"{type(e).__name__}: {e}"
     if "ok" in res["full"]:
         conv = copy.deepcopy(full_obj)
         _, res["deser_new"] = deser_outcome(V, conv, case)
@@ -675,6 +691,9 @@ def line(case, impl):
     l = {"suite": "convert", "doc": case["doc"], "ms": case["ms"], "splits": case["splits"],
          "hasAttr": case["hasAttr"], "kw": case["kw"], "fields": declared_fields(case), "keep": case.get("keep"),
          "addl": True if case.get("addl") is None else case["addl"], "fns": impl.get("fns", {})}
+    if "cls" in impl:
+        l["cls"] = impl["cls"]
+        l["plainCls"] = impl["plainCls"]
     if "full" in impl:
         l["impl"] = {"full": sorted_res(impl["full"]), "again": sorted_res(impl["again"]),
                      "stages": [{"s1": sorted_res(s["s1"]), "s2": sorted_res(s["s2"])} for s in impl["stages"]]}
@@ -788,11 +807,42 @@ def correspondence(case, impl, model):
             return (f"deserialize(keep_undefined={case.get('keep')}, additional properties {case.get('addl')}): the "
                     f"instance keeps undeclared keys {d_old['extras'][:300]}, the model (undeclared keys of the "
                     f"converted document) says {canon(dec(m_ex['ok']))[:300]}")
+    # the whole path (Sem/ConvertDeser.lean): prologue + per-field pass + undeclared keys (nested classes too) +
+    # Versioned.__init__ + constructor validation, against the real instance / exception
+    m_w = model.get("deserWhole")
+    if m_w is not None and d_old is not None and "cls" in impl:
+        r = whole_diff("Deserializer(V).deserialize(document)", m_w, d_old)
+        if r:
+            return r
+        m_p, d_plain = model.get("deserPlainModel"), impl.get("deser_plain")
+        if m_p is not None and d_plain is not None:
+            r = whole_diff("Deserializer(plain latest class).deserialize(converted document)", m_p, d_plain)
+            if r:
+                return r
     init = impl.get("init")
     if init is not None and "ok" in init and init["ok"] != model["initVersion"]:
         return f"constructor: real version {init['ok']} model {model['initVersion']}"
     if model.get("upgradeAgrees") is False:
         return "model self-check: upgrade spec differs from convertDict"
+    return None
+
+
+def whole_diff(what, m, i):
+    """model outcome (wire result of Sem/ConvertDeser) vs the real outcome"""
+    from . import serde
+    if "ok" in m:
+        if "ok" not in i:
+            return f"{what}: model returns an instance, real code raises {i.get('err')}: {i.get('msg')}"
+        if "inst" not in i:
+            return None
+        if not serde._same(m["ok"], i["inst"]):
+            return (f"{what}: instances differ: model {json.dumps(m['ok'])[:300]} real {json.dumps(i['inst'])[:300]}")
+        return None
+    if "ok" in i:
+        return f"{what}: model raises {m['err']} ({m.get('stage', 'remainder')}), real code returned {i['ok'][:200]}"
+    want = i.get("err") if m.get("stage") == "prologue" else i.get("errc", i.get("err"))
+    if m["err"] != want:
+        return f"{what}: exception class differs: model {m['err']} ({m.get('stage', 'remainder')}), real {i.get('err')}: {i.get('msg')}"
     return None
 
 
